@@ -24,7 +24,7 @@ theorem addSections_cons' (s : State) (l : Loc) (areas : List Feat) (rest : List
         addRegion x.1 x.2 >>= fun s2 => addSections s2 rest) := rfl
 
 theorem addSections_inv {s s' : State} {secs : List Sec} (hi : Inv s)
-    (hsub : ∀ sec ∈ secs, ∀ a ∈ sec.2, a ∈ s.cands ++ s.subs)
+    (hsub : ∀ sec ∈ secs, ∀ a ∈ sec.2, a ∈ s.cands ++ s.pool ++ s.subs)
     (h : addSections s secs = .ok s') : Inv s' ∧ SameAreas s s' := by
   induction secs generalizing s with
   | nil =>
@@ -44,7 +44,7 @@ theorem addSections_inv {s s' : State} {secs : List Sec} (hi : Inv s)
       · cases h
       · next s2 hadd =>
         have hin := hsub (l, areas) (by simp)
-        have hc : ∀ f ∈ areas.filter (·.kind == .cand), f ∈ s.cands := by
+        have hc : ∀ f ∈ areas.filter (·.kind == .cand), f ∈ s.cands ++ s.pool := by
           intro f hf
           obtain ⟨hfa, hk⟩ := List.mem_filter.1 hf
           rcases List.mem_append.1 (hin f hfa) with h1 | h1
@@ -55,14 +55,17 @@ theorem addSections_inv {s s' : State} {secs : List Sec} (hi : Inv s)
           intro f hf
           obtain ⟨hfa, hk⟩ := List.mem_filter.1 hf
           rcases List.mem_append.1 (hin f hfa) with h1 | h1
-          · have := hi.kindC f h1
-            simp [this] at hk
+          · rcases List.mem_append.1 h1 with h2 | h2
+            · have := hi.kindC f h2
+              simp [this] at hk
+            · have := hi.kindPool f h2
+              simp [this] at hk
           · exact h1
         obtain ⟨hi2, hsame⟩ := mkAddRegion_inv hi hc hs hmk hadd
         have hsame' : SameAreas s s2 := hsame
         obtain ⟨hi', hs'⟩ := ih hi2 (by
           intro sec hsec a ha
-          rw [hsame'.2.1, hsame'.2.2.1]
+          rw [hsame'.2.1, hsame'.2.2.1, hsame'.2.2.2.1]
           exact hsub sec (by simp [hsec]) a ha) h
         exact ⟨hi', hsame'.trans hs'⟩
 
@@ -73,8 +76,13 @@ theorem nodup_areas {s : State} (hi : Inv s) : (ids (s.cands ++ s.subs)).Nodup :
   rw [List.append_assoc] at h1
   exact (List.nodup_append.1 h1).2.1
 
-theorem createRegions_inv {s s' : State} (hi : Inv s) (h : createRegions s = .ok s') : Inv s' ∧ SameAreas s s' := by
-  simp only [createRegions] at h
+/-- `create_regions(candidate_clusters=cands, subregions=subs)` for candidate clusters of the record or
+    constructed ones, and subregions of the record -/
+theorem createRegionsOf_inv {s s' : State} {cands subs : List Feat} (hi : Inv s)
+    (hc : ∀ f ∈ cands, f ∈ s.cands ++ s.pool) (hs : ∀ f ∈ subs, f ∈ s.subs)
+    (hnd : (ids (cands ++ subs)).Nodup)
+    (h : createRegionsOf s cands subs = .ok s') : Inv s' ∧ SameAreas s s' := by
+  simp only [createRegionsOf] at h
   split at h
   · simp only [pure, Except.pure, Except.ok.injEq] at h
     subst h
@@ -83,11 +91,16 @@ theorem createRegions_inv {s s' : State} (hi : Inv s) (h : createRegions s = .ok
     split at h
     · cases h
     · next secs hsecs =>
-      have hp := sections_perm (nodup_areas hi) hsecs
+      have hp := sectionsOf_perm hnd hsecs
       apply addSections_inv hi _ h
       intro sec hsec a ha
-      exact hp.mem_iff.1 (List.mem_flatten.2 ⟨sec.2, List.mem_map.2 ⟨sec, hsec, rfl⟩, ha⟩)
+      have := hp.mem_iff.1 (List.mem_flatten.2 ⟨sec.2, List.mem_map.2 ⟨sec, hsec, rfl⟩, ha⟩)
+      rcases List.mem_append.1 this with h1 | h1
+      · exact List.mem_append.2 (Or.inl (hc a h1))
+      · exact List.mem_append.2 (Or.inr (hs a h1))
 
+theorem createRegions_inv {s s' : State} (hi : Inv s) (h : createRegions s = .ok s') : Inv s' ∧ SameAreas s s' :=
+  createRegionsOf_inv hi (fun f hf => List.mem_append.2 (Or.inl hf)) (fun f hf => hf) (nodup_areas hi) h
 
 theorem clearKids_get (cs : List Feat) (par : Dict (Option Nat)) (k : Nat) :
     (cs.foldl (fun acc c => setNone acc c.kids) par).get k =
@@ -130,7 +143,7 @@ theorem sublist_nodup {s : State} (hi : Inv s) (p c sb : Bool) :
 theorem dropProtos_inv {s : State} (hi : Inv s) : Inv { s with protos := [] } := by
   refine ⟨by simpa using sublist_nodup hi false true true, ?_, hi.nodupR, hi.freshR, by intro j f hf; simp at hf, hi.numC, hi.numS,
     hi.numR, hi.disjointR, hi.kidsCand, ?_, hi.parentA, by intro f hf; simp at hf, hi.cdsLink, hi.parentFresh,
-    hi.poolNoParent, hi.kindC, hi.kindS, hi.kindPool⟩
+    hi.parentPool, hi.kindC, hi.kindS, hi.kindPool⟩
   · intro f hf
     exact hi.fresh f (by simp only [List.nil_append, List.mem_append] at hf ⊢; rcases hf with (hf | hf) | hf <;> simp [hf])
   · intro r hr k hk
@@ -140,7 +153,7 @@ theorem dropProtos_inv {s : State} (hi : Inv s) : Inv { s with protos := [] } :=
 theorem dropSubs_inv {s : State} (hi : Inv s) : Inv { s with subs := [] } := by
   refine ⟨by simpa using sublist_nodup hi true true false, ?_, hi.nodupR, hi.freshR, hi.numP, hi.numC, by intro j f hf; simp at hf,
     hi.numR, hi.disjointR, ?_, hi.kidsReg, ?_, hi.parentP, hi.cdsLink, hi.parentFresh,
-    hi.poolNoParent, hi.kindC, by intro f hf; simp at hf, hi.kindPool⟩
+    hi.parentPool, hi.kindC, by intro f hf; simp at hf, hi.kindPool⟩
   · intro f hf
     exact hi.fresh f (by simp only [List.append_nil, List.mem_append] at hf ⊢; rcases hf with (hf | hf) | hf <;> simp [hf])
   · intro c hc k hk
@@ -195,12 +208,12 @@ theorem dropCands_inv {s : State} (hi : Inv s) :
     split
     · rfl
     · exact hi.parentFresh k hk
-  · intro c hc
-    simp only [State.parentOf]
-    rw [hpar]
-    split
-    · rfl
-    · exact hi.poolNoParent c hc
+  · intro c hc p hp
+    simp only [State.parentOf] at hp
+    rw [hpar] at hp
+    split at hp
+    · cases hp
+    · exact hi.parentPool c hc p hp
 
 theorem clearCandidates_inv {s s' : State} (hi : Inv s) (h : clearCandidates s = .ok s') : Inv s' := by
   simp only [clearCandidates] at h
@@ -292,16 +305,37 @@ theorem step_reparent_inv {s s' : State} {pids : List Nat} {cid : Nat} (hi : Inv
             have : k ∉ ids ps := fun hm => by have := hpslt k hm; omega
             rw [if_neg this]
             exact hi.parentFresh k hk'
-          · intro c' hc'
-            simp only [State.parentOf]
-            rw [hpar']
+          · intro c' hc' p hp
+            simp only [State.parentOf] at hp
+            rw [hpar'] at hp
             have : c'.id ∉ ids ps := by
               intro hm
               apply hnp.2.2.2.2 c'.id (hpsid _ hm)
               simp only [ids_append, List.mem_append]
               exact Or.inr (mem_ids.2 ⟨c', hc', rfl⟩)
-            rw [if_neg this]
-            exact hi.poolNoParent c' hc'
+            rw [if_neg this] at hp
+            exact hi.parentPool c' hc' p hp
+
+/-- `create_regions` with explicitly passed lists: a repeated area would be put into a region twice and the
+    second `add_region` refused; the model (like the harness) only passes each area once -/
+theorem step_createRegionsWith_inv {s s' : State} {cs ss : List Nat} (hi : Inv s)
+    (h : step s (.createRegionsWith cs ss) = .ok s') : Inv s' ∧ SameAreas s s' := by
+  simp only [step, bind, Except.bind] at h
+  split at h
+  · cases h
+  · next cands hc =>
+    split at h
+    · cases h
+    · next subs hs =>
+      split at h
+      · cases h
+      · next hnd =>
+        have hcm := (findAll_ok hc).2
+        have hsm := (findAll_ok hs).2
+        apply createRegionsOf_inv hi hcm hsm _ h
+        have : ((cs ++ ss).Nodup) := by simpa using hnd
+        rw [ids_append, (findAll_ok hc).1, (findAll_ok hs).1]
+        exact this
 
 /-- every operation keeps the invariant -/
 theorem step_inv {s s' : State} (op : Op) (hi : Inv s) (h : step s op = .ok s') : Inv s' := by
@@ -323,7 +357,8 @@ theorem step_inv {s s' : State} (op : Op) (hi : Inv s) (h : step s op = .ok s') 
         · cases h
         · next v hmk =>
           obtain ⟨s1, r⟩ := v
-          exact (mkAddRegion_inv hi (findAll_ok hc).2 (findAll_ok hs).2 hmk h).1
+          exact (mkAddRegion_inv hi (fun f hf => List.mem_append.2 (Or.inl ((findAll_ok hc).2 f hf))) (findAll_ok hs).2 hmk h).1
+  | createRegionsWith cs ss => exact (step_createRegionsWith_inv hi h).1
   | clearProtos => exact clearProtoclusters_inv hi h
   | clearCands => exact clearCandidates_inv hi h
   | clearSubs => exact clearSubregions_inv hi h
@@ -438,7 +473,7 @@ theorem createRegions_covers {s s' : State} (hi : Inv s) (hreg : s.regions = [])
   obtain ⟨hi', hsame⟩ := createRegions_inv hi h
   have hc : s'.cands = s.cands := hsame.2.1
   have hs : s'.subs = s.subs := hsame.2.2.1
-  simp only [createRegions] at h
+  simp only [createRegions, createRegionsOf] at h
   split at h
   · next hemp =>
     simp only [pure, Except.pure, Except.ok.injEq] at h
